@@ -38,6 +38,8 @@ impl<M: MovingAverageConstructor> KlingerVolumeOscillator<M> {
 		r is Ok ==> self.ma1.seeded(0real, &r->Ok_0.ma1) && self.ma2.seeded(0real, &r->Ok_0.ma2) && self.signal.seeded(0real, &r->Ok_0.ma3),
 		r is Ok ==> r->Ok_0.last_tp@ == (candle.high_s()@ + candle.low_s()@ + candle.close_s()@) / 3real,
 		r is Ok ==> r->Ok_0.cross1.up.last_delta@ == 0real && r->Ok_0.cross2.up.last_delta@ == 0real,
+		// C08: for averaging kinds that cannot overshoot, the constant state for this candle (kvo_const_step)
+		r is Ok && self.ma1.convex_kind() && self.ma2.convex_kind() && self.signal.convex_kind() ==> r->Ok_0.const_state(candle),
 //@replace Ok(Self::Instance { ==> Ok(KlingerVolumeOscillatorInstance {
 //@end
 }
@@ -72,6 +74,24 @@ impl<M: MovingAverageConstructor> KlingerVolumeOscillatorInstance<M> {
 //@hint result
 	proof { assert(kvo_step(old(self), candle, self, r.vals()[0], r.vals()[1], r.sigs()[0], r.sigs()[1], vol, ma1, ma2, mk(0real))); }
 //@end
+}
+
+// ---- C08 at indicator level (averaging kinds that cannot overshoot): KlingerVolumeOscillator on a repeated candle: the typical price does not move, signed volume 0, KO 0, signal line 0, no signals
+impl<M: MovingAverageConstructor> KlingerVolumeOscillatorInstance<M> {
+	pub open spec fn const_state<T: OHLCV>(&self, c: &T) -> bool {
+		&&& self.inv() && self.last_tp@ == (c.high_s()@ + c.low_s()@ + c.close_s()@) / 3real
+		&&& self.ma1.convex() && self.ma2.convex() && self.ma3.convex()
+		&&& self.ma1.within(0real, 0real) && self.ma2.within(0real, 0real) && self.ma3.within(0real, 0real)
+		&&& self.cross1.up.last_delta@ == 0real && self.cross2.up.last_delta@ == 0real
+	}
+}
+pub proof fn kvo_const_step<M: MovingAverageConstructor, T: OHLCV>(pre: &KlingerVolumeOscillatorInstance<M>, candle: &T, post: &KlingerVolumeOscillatorInstance<M>, ko: ValueType, sigl: ValueType, s1: Action, s2: Action, vol: ValueType, m1: ValueType, m2: ValueType, zero: ValueType)
+	requires pre.const_state(candle), post.inv(), kvo_step(pre, candle, post, ko, sigl, s1, s2, vol, m1, m2, zero)
+	ensures ko@ == 0real, sigl@ == 0real, s1 is None, s2 is None, post.const_state(candle)
+{
+	<M::Instance as MovingAverage>::lemma_within_step(&pre.ma1, &vol, &post.ma1, &m1, 0real, 0real);
+	<M::Instance as MovingAverage>::lemma_within_step(&pre.ma2, &vol, &post.ma2, &m2, 0real, 0real);
+	<M::Instance as MovingAverage>::lemma_within_step(&pre.ma3, &ko, &post.ma3, &sigl, 0real, 0real);
 }
 
 // ================================================================== WoodiesCCI
